@@ -5,9 +5,15 @@ import sys
 import traceback
 
 
+def mod(name):
+    """The torrentfile submodule (the package re-exports functions named like
+    some submodules, so 'from torrentfile import recheck' is not the module)."""
+    import importlib
+    return importlib.import_module("torrentfile." + name)
+
+
 def _mods():
-    from torrentfile import cli, commands, edit, rebuild, recheck, torrent, utils
-    return cli, commands, edit, rebuild, recheck, torrent, utils
+    return tuple(mod(n) for n in ("cli", "commands", "edit", "rebuild", "recheck", "torrent", "utils"))
 
 
 LIB_ROUTES = ("TorrentFile", "TorrentFileV2", "TorrentFileHybrid", "Assembler2", "Assembler3")
